@@ -115,8 +115,31 @@ def run(ctx):
                 k = rng.randint(1, len(rec.insts))
                 fam, m, _ = rec.insts[k - 1]
                 fid = rng.choice(["obj", "obj", 0, 1, 2]) if fam == "StronginC3" else "obj"
-                rec.eval(k, rng.choice(pools[(fam, m)]), fid, reuse=rng.random() < 0.35, holder=rng.choice(["fresh", "fresh", "reused", "prefilled"]))
+                rec.eval(k, rng.choice(pools[(fam, m)]), fid, reuse=rng.random() < 0.35, holder=rng.choice(["fresh", "fresh", "reused", "prefilled"]),
+                         rep=rng.choice(["f64", "f64", "f64", "list", "tuple", "ints", "int64"]))
         recs.append(rec)
+    # the FIRST evaluation of a fresh instance is made with the point in another representation (list, tuple, ints / int64 for a
+    # point with integral coordinates); every later value must still be the one the memo holds (a work buffer typed by the first call)
+    for fam in (ALL if not qk else CHEAP + ["GKLS2", "Grishagin"]):
+        ms = fams[fam][1]
+        m = ms[0]
+        for rep in ("ints", "int64", "list", "tuple"):
+            rec = ProblemRec("first-representation")
+            rec.construct(fam, m, with_meta=False)
+            if (fam, m) not in pools:
+                pools[(fam, m)] = point_pool(fam, m, rec.insts[-1][2], 4, ctx.seed)
+            pool = pools[(fam, m)]
+            integral = [pt for pt in pool if all(float(t).is_integer() for t in pt)]
+            if not integral:
+                p_ = rec.insts[-1][2]
+                mid = [float(round((float(a) + float(b)) / 2)) for a, b in zip(p_.lowerBoundOfFloatVariables, p_.upperBoundOfFloatVariables)]
+                if all(float(a) <= t <= float(b) for t, a, b in zip(mid, p_.lowerBoundOfFloatVariables, p_.upperBoundOfFloatVariables)):
+                    integral = [mid]
+            first = integral[0] if integral and rep in ("ints", "int64") else pool[-1]
+            rec.eval(1, first, "obj", rep=rep)
+            for pt in pool + [first]:
+                rec.eval(1, pt, "obj", rep=rng.choice(["f64", "f64", "list"]))
+            recs.append(rec)
     # problems with several functions (StronginC3: objective + 3 constraints): every function at every pool point, in several
     # orders, on two sibling instances - a value must not depend on which OTHER function was evaluated at the point before
     fids = ["obj", 0, 1, 2]
